@@ -6,7 +6,7 @@ import ColaVerif.Lemmas.SvdPinv
 /-!
 # C16: from the model's entry functions (`MatF`) to Mathlib matrices
 
-* `toMatrix_diagM`, `toMatrix_backsubU`, `toMatrix_backsubV` : the back-substitution formulas of
+* `toMatrix_diagM_svd`, `toMatrix_backsubU`, `toMatrix_backsubV` : the back-substitution formulas of
   `Model/Svd.lean` are `A V Σ⁻¹` and `(Σ⁻¹ Uᴴ A)ᴴ`;
 * `idxEquiv`, `toMatrix_selCols` : `X[:, idx]` for a duplicate-free index list covering `0 … r-1` is
   a `submatrix` along an equivalence; `thin_permute_*` : re-ordering the triplets of a thin SVD
@@ -26,7 +26,7 @@ variable {𝕜 : Type} [RCLike 𝕜]
 
 /-! ## back-substitution formulas -/
 
-theorem toMatrix_diagM (k : Nat) (d : Nat → 𝕜) :
+theorem toMatrix_diagM_svd (k : Nat) (d : Nat → 𝕜) :
     MatF.toMatrix k k (diagM d) = diagonal (fun i : Fin k => d i.val) := by
   ext i j
   simp only [MatF.toMatrix_apply, diagM, diagonal_apply, Fin.ext_iff]
@@ -35,13 +35,13 @@ theorem toMatrix_backsubU (m n k : Nat) (A V : MatF 𝕜) (sinv : Nat → 𝕜) 
     MatF.toMatrix m k (backsubU n k A V sinv) =
       MatF.toMatrix m n A * MatF.toMatrix n k V * diagonal (fun i : Fin k => sinv i.val) := by
   unfold backsubU
-  rw [MatF.toMatrix_mmul m k k, MatF.toMatrix_mmul m n k, toMatrix_diagM]
+  rw [MatF.toMatrix_mmul m k k, MatF.toMatrix_mmul m n k, toMatrix_diagM_svd]
 
 theorem toMatrix_backsubV (m n k : Nat) (A U : MatF 𝕜) (sinv : Nat → 𝕜) :
     MatF.toMatrix n k (backsubV m k A U sinv) =
       (diagonal (fun i : Fin k => sinv i.val) * (MatF.toMatrix m k U)ᴴ * MatF.toMatrix m n A)ᴴ := by
   unfold backsubV
-  rw [MatF.toMatrix_adjoint k n, MatF.toMatrix_mmul k m n, MatF.toMatrix_mmul k k m, toMatrix_diagM,
+  rw [MatF.toMatrix_adjoint k n, MatF.toMatrix_mmul k m n, MatF.toMatrix_mmul k k m, toMatrix_diagM_svd,
     MatF.toMatrix_adjoint m k]
 
 /-- real reciprocals: `diagonal (σ⁻¹)` in the form of `SvdBacksub` -/
@@ -131,7 +131,7 @@ theorem colE_smulM (r : Nat) (c : 𝕜) (X : MatF 𝕜) (j : Nat) : colE r (smul
 theorem diag_recip_mul (n : Nat) (d : Nat → 𝕜) (hd : ∀ i, i < n → d i ≠ 0) :
     MatF.toMatrix n n (diagM (fun i => (d i)⁻¹)) * MatF.toMatrix n n (diagM d) = 1 ∧
     MatF.toMatrix n n (diagM d) * MatF.toMatrix n n (diagM (fun i => (d i)⁻¹)) = 1 := by
-  rw [toMatrix_diagM, toMatrix_diagM, diagonal_mul_diagonal, diagonal_mul_diagonal]
+  rw [toMatrix_diagM_svd, toMatrix_diagM_svd, diagonal_mul_diagonal, diagonal_mul_diagonal]
   constructor
   · rw [← diagonal_one]
     congr 1
